@@ -131,6 +131,11 @@ def calls(rs, prop, t, loc, level):
     if prop == "C17":
         K = rand_kraus(rs, d, 2)
         out.append({"kind": "invalid", "what": "kraus_not_tp", "targets": [t], "ops": [mj(K[0]), mj(0.5 * K[1])]})
+        out.append({"kind": "invalid", "what": "kraus_wrong_size", "targets": [t], "ops": [mj(x) for x in rand_kraus(rs, d + 1, 2)]})
+        out.append({"kind": "invalid", "what": "povm_wrong_size", "targets": [t], "ops": [mj(x) for x in rand_kraus(rs, d + 1, 2)]})
+        out.append({"kind": "invalid", "what": "wrong_kind", "targets": [t], "gate": "X" if t in (0, 2) else "Creation"})
+        if t not in (0, 2):
+            out.append({"kind": "invalid", "what": "custom_wrong_size", "targets": [t], "gate": "PolCustom" if t in (1, 3) else "CustomCustom", "U": mj(rs.randn(d + 1, d + 1))})
         if t in (0, 2):
             out.append({"kind": "invalid", "what": "shrink_below_support", "targets": [t], "dim": 1})
     return out
@@ -454,6 +459,25 @@ def special_programs(prop):
                      {"kind": "invalid", "what": "destroyed_operand", "h": 0, "targets": [1, 2], "call": c},
                      {"kind": "op", "gate": "CZ", "targets": [3, 1], "entry": "ce", "h": 0}]
             progs.append({"seed": 7, "contraction": True, "focus": prop, "cell": f"invalid:destroyed_operand:{c}|ce|t1+dead2|ps|matrix-mixed", "setup": SETUP, "steps": steps})
+    if prop in ("C17", "C05"):
+        # a destroyed subsystem named on its own, through every entry point, for every kind of request; its envelope
+        # partner alive (own state / member of a product space) and usable afterwards
+        rs = np.random.RandomState(9400)
+        reqs = [{"kind": "measure", "targets": [0], "sep": sp, "destructive": d_} for sp in (False, True) for d_ in (True, False)]
+        reqs += [{"kind": "op", "gate": "Creation", "targets": [0]},
+                 {"kind": "kraus", "targets": [0], "ops": [mj(np.eye(3))]},
+                 {"kind": "povm", "targets": [0], "ops": [mj(np.eye(3))], "destructive": True}]
+        for loc in ("own", "ps"):
+            for en in ("state", "env", "ce"):
+                for q in reqs:
+                    steps = [superpose(rs, 1), superpose(rs, 3),
+                             {"kind": "measure", "targets": [0], "entry": "state", "sep": True, "destructive": True}]
+                    if loc == "ps":
+                        steps.append({"kind": "struct", "what": "ce_combine", "h": 0, "targets": [1, 3]})
+                    steps.append(with_entry(dict(q), en))
+                    steps.append({"kind": "op", "gate": "CZ", "targets": [3, 1], "entry": "ce", "h": 0})
+                    tag = q["kind"] + ("" if q["kind"] != "measure" else f":sep={q['sep']}:des={q['destructive']}")
+                    progs.append({"seed": 7, "contraction": True, "focus": prop, "cell": f"destroyed:{tag}|{en}|dead0|partner-{loc}|vector", "setup": SETUP, "steps": steps})
     if prop in ("C04", "C05", "C06", "C09"):
         # three members at density-matrix level whose storage was rotated cyclically by an earlier request
         rs = np.random.RandomState(9100 + sum(map(ord, prop)))
@@ -512,7 +536,7 @@ def special_programs(prop):
 
 def cell_programs(prop, seed=0):
     return (special_programs(prop) + combine_programs(prop) + foreign_programs(prop) + twin_programs(prop) + single_programs(prop) + pair_programs(prop) + triple_programs(prop) + envelope_measure_programs(prop)
-            + reuse_programs(prop))
+            + reuse_programs(prop) + free_programs(prop))
 
 
 def single_programs(prop, seed=0):
@@ -531,6 +555,34 @@ def single_programs(prop, seed=0):
                         st = with_entry(call, en)
                         progs.append({"seed": 7, "contraction": True, "focus": prop, "cell": f"{call['kind']}:{call.get('gate', call.get('what', ''))}|{en}|t{t}|{loc}|{level}",
                                       "setup": SETUP, "steps": prep + [st]})
+    return progs
+
+
+SETUP_FREE = {"envs": [{"fock": 1, "pol": "R", "fdim": 3}, {"fock": 0, "pol": "H", "fdim": 2}],
+              "customs": [{"dim": 3, "label": 1}], "composites": []}
+
+
+def free_programs(prop):
+    """the same single-target cells in a world *without* any composite envelope: requests on a member of an
+    envelope are then served by the envelope's own code instead of being forwarded to the composite"""
+    rs = np.random.RandomState(1500 + sum(map(ord, prop)))
+    progs = []
+    for t in (0, 1, 4):
+        for loc in ("own", "env-ff", "env-pf"):
+            for level in LEVELS:
+                for en in ("state", "env"):
+                    if t == 4 and en == "env":
+                        continue
+                    prep, partner = prepare(rs, t, loc, level)
+                    if prep is None:
+                        continue
+                    for call in calls(rs, prop, t, loc, level):
+                        if not allowed(call, en, t, loc, level):
+                            continue
+                        st = with_entry(call, en)
+                        progs.append({"seed": 7, "contraction": True, "focus": prop,
+                                      "cell": f"{call['kind']}:{call.get('gate', call.get('what', ''))}|{en}|t{t}|{loc}|{level}|no-composite",
+                                      "setup": SETUP_FREE, "steps": prep + [st]})
     return progs
 
 
